@@ -29,6 +29,17 @@ def frames():
     return new, old, unk
 
 
+def big_frame():
+    """Patches far larger than an I/O buffer, written in many chunks smaller than one (W1b)."""
+    import numpy as np
+    import pandas as pd
+
+    n = 1200
+    i = np.arange(n)
+    return pd.DataFrame(dict(ra=10.0 + 5.0 * (i % 2) + 0.8 * ((i * 7919) % 1000) / 1000.0, dec=0.4 * ((i * 104729) % 997) / 997.0,
+                             z=0.11 + 0.28 * ((i * 31) % 101) / 101.0, w=1.0 + (i % 13)))
+
+
 def make(path, df, **kw):
     from yaw import Catalog
 
@@ -82,7 +93,7 @@ def main():
     R = os.path.join(base, "R")
     if phase == "setup":
         os.makedirs(base, exist_ok=True)
-        if wl in ("W1", "W1p"):
+        if wl in ("W1", "W1p", "W1b"):
             pass
         elif wl in ("W2", "W2p"):
             make(R, old)
@@ -107,6 +118,8 @@ def main():
             returned(make(R, new, chunksize=3))
         elif wl in ("W2", "W2p"):
             returned(make(R, new, chunksize=3, overwrite=True))
+        elif wl == "W1b":
+            make(R, big_frame(), chunksize=100)
         elif wl == "W3":
             Catalog(R)
         elif wl == "W4":
